@@ -22,8 +22,25 @@ let prefix (total : n) (partial : n list) : string =
   let p = (int_of_n total) land 1023 in
   hex_of_bytes (fst (take_drop p partial []))
 
+let words_of_hex (s : string) : n list =
+  if s = "-" then [] else List.init (String.length s / 8) (fun i -> n_of_hex (String.sub s (8 * i) 8))
+
+let rec zeros_n k = if k <= 0 then [] else N0 :: zeros_n (k - 1)
+
+(* J lines (state injection, see harness/mh_drv.c): the run starts from the given context
+   instead of init; there is no whole stream, so the "s" fields repeat the model's finalize *)
+type inject = { j_total : n; j_partial : n list; j_interim : n list; j_h : n * n }
+
 let () = iter_lines (fun line ->
-  match split_ws line with
+  let toks = split_ws line in
+  let (toks, inj) = match toks with
+    | "J" :: id :: fam :: alg :: seed :: total :: partial :: interim :: h1 :: h2 :: rest ->
+      let p = bytes_of_hex partial in
+      ("U" :: id :: fam :: alg :: seed :: rest,
+       Some { j_total = n_of_hex total; j_partial = p @ zeros_n (1024 - List.length p);
+              j_interim = words_of_hex interim; j_h = (n_of_hex h1, n_of_hex h2) })
+    | _ -> (toks, None) in
+  match toks with
   | "U" :: id :: _fam :: alg :: seed :: stream :: _ctxp :: _nseg :: segs ->
     let stream = bytes_of_hex stream in
     let b = Buffer.create 4096 in
@@ -41,17 +58,21 @@ let () = iter_lines (fun line ->
        let (init, upd, fin, tail, spec) =
          if alg = "sha1" then (mh1_init, mh1_update, mh1_finalize, mh1_tail, mh_sha1)
          else (mh256_init, mh256_update, mh256_finalize, mh256_tail, mh_sha256) in
-       let c = ref init in
+       let c = ref (match inj with
+         | None -> init
+         | Some j -> { mc_total = j.j_total; mc_partial = j.j_partial; mc_state = j.j_interim }) in
        List.iter (fun seg ->
          c := upd !c seg;
          if dump () then Buffer.add_string b (Printf.sprintf " u %s %s %s" (hex_of_n !c.mc_total)
            (prefix !c.mc_total !c.mc_partial) (words_hex !c.mc_state))) pieces;
        Buffer.add_string b (" f " ^ words_hex (fin !c));
        Buffer.add_string b (" g " ^ words_hex (tail !c));
-       Buffer.add_string b (" s " ^ words_hex (spec stream))
+       Buffer.add_string b (" s " ^ words_hex (match inj with None -> spec stream | Some _ -> fin !c))
      | "mur" ->
        let seed = n_of_hex seed in
-       let c = ref (mhm_init seed) in
+       let c = ref (match inj with
+         | None -> mhm_init seed
+         | Some j -> { mc_total = j.j_total; mc_partial = j.j_partial; mc_state = (j.j_interim, j.j_h) }) in
        List.iter (fun seg ->
          c := mhm_update !c seg;
          let (dg, (h1, h2)) = !c.mc_state in
@@ -62,9 +83,14 @@ let () = iter_lines (fun line ->
        Buffer.add_string b (Printf.sprintf " f %s %s %s" (words_hex dg)
          (hex_of_n ~digits:16 h1) (hex_of_n ~digits:16 h2));
        Buffer.add_string b (" g " ^ words_hex (mhm_tail !c));
-       let (s1, s2) = murmur3_x64_128 seed stream in
-       Buffer.add_string b (Printf.sprintf " s %s %s %s" (words_hex (mh_sha1 stream))
-         (hex_of_n ~digits:16 s1) (hex_of_n ~digits:16 s2))
+       (match inj with
+        | None ->
+          let (s1, s2) = murmur3_x64_128 seed stream in
+          Buffer.add_string b (Printf.sprintf " s %s %s %s" (words_hex (mh_sha1 stream))
+            (hex_of_n ~digits:16 s1) (hex_of_n ~digits:16 s2))
+        | Some _ ->
+          Buffer.add_string b (Printf.sprintf " s %s %s %s" (words_hex dg)
+            (hex_of_n ~digits:16 h1) (hex_of_n ~digits:16 h2)))
      | _ -> Buffer.add_string b " badalg");
     print_endline (Buffer.contents b)
   | [] -> ()
